@@ -221,6 +221,12 @@ func (cb *CellBuffer) Resize(w, h int) {
 // If either the foreground or background are ColorNone, then the respective
 // color is unchanged.
 func (cb *CellBuffer) Fill(r rune, style Style) {
+	// Control and other zero-width runes are displayed as blanks, exactly
+	// as SetContent arranges; wide runes remain unsupported here.
+	width := 1
+	if runewidth.RuneWidth(r) == 0 {
+		width = 0
+	}
 	for i := range cb.cells {
 		c := &cb.cells[i]
 		c.currMain = r
@@ -233,7 +239,7 @@ func (cb *CellBuffer) Fill(r rune, style Style) {
 			cs.bg = c.currStyle.bg
 		}
 		c.currStyle = cs
-		c.width = 1
+		c.width = width
 	}
 }
 
